@@ -119,11 +119,10 @@ Print Assumptions c15_nothing_before_join.
    the retained event of n (most recent earlier event of a stateful type, if
    any) and hands n.lk to the replay goroutine, so no Emit on n can be promised
    to s before it; if s had not joined n before, it is the first n-item *)
-Theorem c15_stateful_replay_first : forall st sched s c i tys ty, initial st ->
+Theorem c15_stateful_replay_first : forall st sched s c i n tys nd, initial st ->
   let st1 := run step st sched in
-  nth_error (subs st1) s = Some c -> spc c = SApp i -> styps c = Some tys -> nth_error tys i = Some ty ->
-  let n := snd (lookup st1 ty) in
-  forall nd, nth_error (nodes (fst (lookup st1 ty))) n = Some nd -> holder nd = None ->
+  nth_error (subs st1) s = Some c -> spc c = SApp i n -> styps c = Some tys ->
+  nth_error (nodes st1) n = Some nd -> holder nd = None ->
   exists st2 c2 nd2, step st1 (TSub s) = Some (None, st2) /\
     nth_error (subs st2) s = Some c2 /\ nth_error (nodes st2) n = Some nd2 /\
     holder nd2 = Some (TReplay s i) /\ sinks nd2 = sinks nd ++ [s] /\
@@ -147,8 +146,10 @@ Print Assumptions c15_wildcard_same_rules.
    thread can take a step unless it is sending to a full open channel, in which
    case the channel's consumer (if a receive is pending) or its drainer (if
    Close has started) can take a step.  So every thread waiting for n.lk waits
-   for a thread that waits only for a live consumer or for Close.  (The bus
-   lock and the wildcard write lock are not covered by a theorem.) *)
+   for a thread that waits only for a live consumer or for Close.  (Not covered by
+   a theorem: the wildcard write-lock chain - pending writer waits for the readers
+   counted in rdrs - the wg.Wait of wildcard Close on its drainer, and the index /
+   existence side conditions needed to quantify over every unfinished thread.) *)
 Theorem c15_no_deadlock_partial : forall st sched n nd t, initial st ->
   nth_error (nodes (run step st sched)) n = Some nd -> holder nd = Some t ->
   in_region (run step st sched) n t /\
@@ -163,26 +164,29 @@ Theorem c15_reader_progress_partial : forall st sched k e n todo, initial st ->
 Proof. exact reader_progress_l. Qed.
 Print Assumptions c15_reader_progress_partial.
 
-(* GENUINE DEFECT (known_findings/C15.json): the full statement "in no reachable
-   state is every thread blocked while operations are in flight and no consumer
-   or Close can release them" is FALSE of the faithful model; the witness
-   schedule was replayed on the real bus.  withNode / tryDropNode hold
-   basicBus.lk while waiting for n.lk; a multi-type Subscribe that has joined its
-   first node needs basicBus.lk again; an Emit holding n.lk is stalled on the
-   channel of that not-yet-returned subscription. *)
-Theorem c15_no_deadlock_refuted : ~ no_deadlock_full.
-Proof. exact no_deadlock_refuted_l. Qed.
-Print Assumptions c15_no_deadlock_refuted.
+(* After fix 8aeecd5 basicBus.lk only protects sections that cannot block: in the
+   model it is never held across a step (nobody ever waits for it), tryDropNode
+   never waits (pending > 0 or TryLock failure = in use), so the only lock-wait
+   chains left are: node lock -> its holder (c15_no_deadlock_partial) -> channel
+   room -> consumer / Close; wildcard write lock -> readers -> channel room. *)
+Theorem c15_bus_lock_never_held : forall st sched, initial st -> blk (run step st sched) = None.
+Proof. exact bus_lock_never_held_l. Qed.
+Print Assumptions c15_bus_lock_never_held.
 
-Theorem c15_no_deadlock_witness_state :
+Theorem c15_try_drop_never_waits : forall st ty, exists st', try_drop st ty = Some st'.
+Proof. exact try_drop_total. Qed.
+Print Assumptions c15_try_drop_never_waits.
+
+(* the schedule that deadlocked the unrepaired bus (half-registered multi-type
+   Subscribe + Emit stalled on it + third operation on the same type), continued:
+   the Subscribe returns, Close releases the Emit, the third operation returns *)
+Theorem c15_former_deadlock_completes :
   let st := run step dl_init dl_sched in
-  (exists c, nth_error (subs st) 1 = Some c /\ spc c = SBus 1 /\ buf c = [] /\ ccap c = 0 /\ want c = 0) /\
-  (exists e, nth_error (emits st) 1 = Some e /\ epc e = ESend 0 [1]) /\
-  (exists nd, nth_error (nodes st) 0 = Some nd /\ holder nd = Some (TEmit 1)) /\
-  blk st = Some (TEmNew 1) /\
-  step st (TSub 1) = None /\ step st (TEmit 1) = None /\ step st (TEmNew 1) = None.
-Proof. exact dl_state_l. Qed.
-Print Assumptions c15_no_deadlock_witness_state.
+  (exists c, nth_error (subs st) 1 = Some c /\ spc c = SDone) /\
+  (exists e, nth_error (emits st) 1 = Some e /\ epc e = EDone) /\
+  (exists m, nth_error (emitters st) 1 = Some m /\ mnew m = 4) /\ panicked st = false.
+Proof. exact former_deadlock_completes_l. Qed.
+Print Assumptions c15_former_deadlock_completes.
 
 (* ---- non-vacuity ------------------------------------------------------------- *)
 (* one stateful emitter of type 0, one typed subscription (buffer 1), events 100
